@@ -77,54 +77,75 @@ func (c *Ctx) rulesR5auto(a *coreAnchors) {
 		}
 		n := 0
 		if writer != nil {
-			for _, b := range a.emitEvents.Blocks {
-				for _, ins := range b.Instrs {
-					phi, ok := ins.(*ssa.Phi)
-					if !ok || phi.Comment != "result" {
-						continue
+			for _, hf := range c.hostedFns(a.emitEvents) {
+				// a hosted helper belongs to the negotiation phase when its call site
+				// in emitEvents can still reach the state writer
+				inNeg := func(p *ssa.BasicBlock) bool {
+					if hf == a.emitEvents {
+						return len(p.Instrs) > 0 && canReach(p.Instrs[0], writer)
 					}
-					for i, e := range phi.Edges {
-						if !isConstOf(e, a.tResult, a.vCanceled) || i >= len(b.Preds) {
+					top := hf
+					for d := 0; d < 4; d++ {
+						cs, _ := c.allCallersOf(top)
+						if len(cs) != 1 {
+							return false
+						}
+						if topFunc(cs[0].Fn) == a.emitEvents {
+							return canReach(cs[0].Instr, writer)
+						}
+						top = topFunc(cs[0].Fn)
+					}
+					return false
+				}
+				for _, b := range hf.Blocks {
+					for _, ins := range b.Instrs {
+						phi, ok := ins.(*ssa.Phi)
+						if !ok || phi.Comment != "result" {
 							continue
 						}
-						p := b.Preds[i]
-						if len(p.Instrs) == 0 || !canReach(p.Instrs[0], writer) {
-							continue
-						}
-						gs := guardsOf(p)
-						if ifi, ok := p.Instrs[len(p.Instrs)-1].(*ssa.If); ok {
-							for si, s := range p.Succs {
-								if s == b {
-									gs = append(gs, Guard{Cond: ifi.Cond, Pol: si == 0, If: ifi})
-								}
+						for i, e := range phi.Edges {
+							if !isConstOf(e, a.tResult, a.vCanceled) || i >= len(b.Preds) {
+								continue
 							}
-						}
-						isAuto := false
-						for _, g := range gs {
-							if gCallTruth("IsAuto()", "Transition", "IsAuto", true).Match(g) {
-								isAuto = true
+							p := b.Preds[i]
+							if !inNeg(p) {
+								continue
 							}
-						}
-						if !isAuto {
-							continue
-						}
-						n++
-						bad := ""
-						for _, g := range gs {
-							valueTree(g.Cond, 8, func(v ssa.Value) {
-								if call, ok := v.(*ssa.Call); ok {
-									switch calleeName(&call.Call) {
-									case "StatesBefore", "ActiveStates":
-										bad = calleeName(&call.Call) + "()"
+							gs := guardsOf(p)
+							if ifi, ok := p.Instrs[len(p.Instrs)-1].(*ssa.If); ok {
+								for si, sx := range p.Succs {
+									if sx == b {
+										gs = append(gs, Guard{Cond: ifi.Cond, Pol: si == 0, If: ifi})
 									}
 								}
-								if loadOfField(v) == a.fActive {
-									bad = "Machine.activeStates"
+							}
+							isAuto := false
+							for _, g := range gs {
+								if gCallTruth("IsAuto()", "Transition", "IsAuto", true).Match(g) {
+									isAuto = true
 								}
-							})
+							}
+							if !isAuto {
+								continue
+							}
+							n++
+							bad := ""
+							for _, g := range gs {
+								valueTree(g.Cond, 8, func(v ssa.Value) {
+									if call, ok := v.(*ssa.Call); ok {
+										switch calleeName(&call.Call) {
+										case "StatesBefore", "ActiveStates":
+											bad = calleeName(&call.Call) + "()"
+										}
+									}
+									if loadOfField(v) == a.fActive {
+										bad = "Machine.activeStates"
+									}
+								})
+							}
+							c.check(bad == "", "C07.none", fmt.Sprintf("emitEvents: cancel of an auto transition#%d during negotiation is an emptiness test", n), p.Instrs[len(p.Instrs)-1].Pos(),
+								"the auto transition is canceled on a condition involving "+bad+": the size of the previously active set says nothing about whether a called Auto state was accepted")
 						}
-						c.check(bad == "", "C07.none", fmt.Sprintf("emitEvents: cancel of an auto transition#%d during negotiation is an emptiness test", n), p.Instrs[len(p.Instrs)-1].Pos(),
-							"the auto transition is canceled on a condition involving "+bad+": the size of the previously active set says nothing about whether a called Auto state was accepted")
 					}
 				}
 			}
